@@ -374,6 +374,10 @@ def gen_warning_form(rng):
         if rng.random() < 0.5:
             dup.update({k: v for k, v in src.items() if k.startswith("label")})
         form["choices"].insert(form["choices"].index(src) + 1 + rng.randrange(2), dup)
+    # image questions with parameters: the advisory depends on max-pixels alone, whatever else the cell holds
+    for row in survey:
+        if row["type"] in ("image", "photo") and rng.random() < 0.6:
+            row["parameters"] = rng.choice(["app=com.example.cam", "max-pixels=640", "max-pixels=1024 app=org.x.y", "app=a.b max-pixels=300", "app=io.ionic.starter"])
     if rng.random() < 0.15:
         for row in survey:
             if rng.random() < 0.4:
